@@ -52,6 +52,28 @@ static void run1(const char *op, const unsigned char *p, size_t n, char *out) {
     } else strcpy(out, qv_sig == SIGALRM ? "TIMEOUT" : "CRASH");
 }
 
+#include <pthread.h>
+static char par_path[2][600]; static unsigned char par_want[2][16]; static volatile int par_bad; static int par_rounds;
+static void *par_worker(void *p) {
+    int k = (int)(long)p; unsigned char dg[16];
+    for (int i = 0; i < par_rounds && !par_bad; i++) { if (!qhashmd5_file(par_path[k], 0, 0, dg) || memcmp(dg, par_want[k], 16)) par_bad = 1; }
+    return NULL;
+}
+int md5par_run(const char *base, int rounds) {
+    static unsigned char buf[300000];
+    for (int k = 0; k < 2; k++) {
+        snprintf(par_path[k], sizeof par_path[k], "%s.par%d", base, k);
+        for (size_t i = 0; i < sizeof buf; i++) buf[i] = (unsigned char)(i * (k ? 31 : 17) + (i >> 8) + k);
+        int fd = open(par_path[k], O_WRONLY | O_CREAT | O_TRUNC, 0600); if (fd < 0 || write(fd, buf, sizeof buf - k * 777) < 0) return 0; close(fd);
+        if (!qhashmd5_file(par_path[k], 0, 0, par_want[k])) return 0;
+    }
+    par_bad = 0; par_rounds = rounds; pthread_t th[2];
+    for (long k = 0; k < 2; k++) pthread_create(&th[k], NULL, par_worker, (void *)k);
+    for (int k = 0; k < 2; k++) pthread_join(th[k], NULL);
+    unlink(par_path[0]); unlink(par_path[1]);
+    return !par_bad;
+}
+
 int main(void) {
     qv_install();
     line = malloc(linecap); data = malloc(datacap);
@@ -67,6 +89,23 @@ int main(void) {
         size_t n = parse_data(d);
         static char a4[64], a5[64];
         a2[0] = a3[0] = a4[0] = a5[0] = 0; if (save == ' ') sscanf(e + 1, "%63s %63s %63s %63s", a2, a3, a4, a5);
+        if (!strcmp(op, "twice")) {
+            /* twice <data> <data2>: hash a buffer, overwrite it in place with other bytes of the same length, hash the SAME address and
+               length again, in one function: the second value is the hash of the new bytes (prints the three integer hashes of both) */
+            static unsigned char tb[1 << 16]; size_t n2 = unhex(a2, tb + 32768); if (n > 32768) n = 32768; if (n2 > n) n2 = n;
+            memcpy(tb, data, n);
+            uint32_t f1 = qhashfnv1_32(tb, n); uint64_t g1 = qhashfnv1_64(tb, n); uint32_t m1 = qhashmurmur3_32(tb, n);
+            memcpy(tb, tb + 32768, n2);
+            uint32_t f2 = qhashfnv1_32(tb, n); uint64_t g2 = qhashfnv1_64(tb, n); uint32_t m2 = qhashmurmur3_32(tb, n);
+            printf("%08x %016llx %08x %08x %016llx %08x\n", f1, (unsigned long long)g1, m1, f2, (unsigned long long)g2, m2); fflush(stdout);
+            continue;
+        }
+        if (!strcmp(op, "md5par")) {
+            /* md5par <rounds>: two threads hash two different files at the same time, again and again: every digest equals the one
+               computed alone */
+            int rounds = atoi(d); extern int md5par_run(const char *, int); printf("%s\n", md5par_run(path, rounds) ? "OK" : "DIFFERS"); fflush(stdout);
+            continue;
+        }
         if (!strcmp(op, "md5file")) {
             long long off = atoll(a2), nb = atoll(a3);
             int fd = open(path, O_WRONLY | O_CREAT | O_TRUNC, 0600);
@@ -106,8 +145,23 @@ int main(void) {
                 } else strcpy(ov[k], qv_sig == SIGALRM ? "TIMEOUT" : "CRASH");
             }
         }
+        /* the 16-byte result stored at addresses of every alignment, with guard bytes around it */
+        char mis[64]; strcpy(mis, r[0]);
+        if (!strcmp(op, "md5") || !strcmp(op, "mm128")) {
+            static unsigned char rbuf[16 + 16 + 96];
+            for (int off = 1; off < 8 && !strcmp(mis, r[0]); off += 2) {
+                memset(rbuf, 0x5c, sizeof rbuf);
+                unsigned char *rb = rbuf + 16 + off;
+                if (QV_TRY(20)) {
+                    bool ok = op[1] == 'm' ? qhashmurmur3_128(data, n, rb) : qhashmd5(data, n, rb); QV_END;
+                    if (!ok) strcpy(mis, "FALSE"); else for (int i = 0; i < 16; i++) sprintf(mis + 2 * i, "%02x", rb[i]);
+                    for (size_t i = 0; i < sizeof rbuf; i++) if ((rbuf + i < rb || rbuf + i >= rb + 16) && rbuf[i] != 0x5c) strcpy(mis, "WROTE-OUTSIDE-RESULT");
+                } else strcpy(mis, qv_sig == SIGALRM ? "TIMEOUT" : "CRASH");
+            }
+        }
         int same = 1; for (int i = 1; i < 6; i++) if (strcmp(r[0], r[i])) same = 0;
-        if (same && (strcmp(r[0], ov[0]) || strcmp(r[0], ov[1]))) printf("UNSTABLE plain=%s result-over-head-of-data=%s result-over-tail-of-data=%s\n", r[0], ov[0], ov[1]);
+        if (same && strcmp(r[0], mis)) printf("UNSTABLE plain=%s result-at-odd-address=%s\n", r[0], mis);
+        else if (same && (strcmp(r[0], ov[0]) || strcmp(r[0], ov[1]))) printf("UNSTABLE plain=%s result-over-head-of-data=%s result-over-tail-of-data=%s\n", r[0], ov[0], ov[1]);
         else if (same) printf("%s\n", r[0]);
         else printf("UNSTABLE hi=%s lo=%s a1/00=%s a1/ff=%s a11/00=%s a11/ff=%s\n", r[0], r[1], r[2], r[3], r[4], r[5]);
         fflush(stdout);
